@@ -172,3 +172,8 @@ Lemma skip_v0_desync_lemma :
   skip_file_v0 SH_BSDIFF series = Ok [MCT (mkCT [1%N] [] 0 false); MCT (mkCT [] [] 0 true); hey_msg] /\
   skip_file SH_BSDIFF series = Ok [].
 Proof. vm_compute. split; reflexivity. Qed.
+
+Lemma select_only_selected0 W segs :
+  (forall i seg, nth_error segs i = Some seg -> Forall (bowl_ev_for (Z.of_nat i)) seg) ->
+  Forall (ev_selected W) (wl_select W 0 segs).
+Proof. intros H. apply select_only_selected. intros m seg Hm. rewrite Z.add_0_l. apply H. exact Hm. Qed.
